@@ -203,7 +203,7 @@ def run(rep, tier, seed):
     rejects = core.validate("lie", "Trace_Lie", traces + probes, workers=8)
     rej = {x[0] for x in rejects}
     if any(p["id"] not in rej for p in probes):
-        raise core.MachineryError("P accepted corrupted traces")
+        core.probe_fail(rejects, "P accepted corrupted traces")
     rep.extra["probes_rejected"] = len(probes)
     rep.traces = len(traces)
     for tid, clause, _ in rejects:
